@@ -9,6 +9,9 @@ def stallOp : List String → Option String
   | ["stall", nwS, sizeS, hold, nbS, sec] => do
     -- a second batch asked for while the first is still blocked: the same writes again, delivered after the first
     let base ← stallOp ["stall", nwS, sizeS, hold, nbS]
+    -- "2": a third, established connection asks while the worker is busy, just before the blocked one becomes writable: it is
+    -- answered and the blocked connection is drained all the same
+    if sec == "2" then pure (base ++ " c=1") else
     if sec != "1" then pure base else
     let nw ← nwS.toNat?
     let size ← sizeS.toNat?
